@@ -161,7 +161,7 @@ def to_stmts(n) -> List[dict]:
                 di = [x for x in d.get("inner", []) or [] if x.get("kind") not in ("FullComment",)]
                 if di:
                     init = to_expr(di[0])
-                out.append({"k": "decl", "name": d.get("name"), "type": d.get("type", {}).get("qualType"), "init": init, "static": d.get("storageClass") == "static"})
+                out.append({"k": "decl", "name": d.get("name"), "type": (d.get("type", {}).get("desugaredQualType") if "auto" in (d.get("type", {}).get("qualType") or "") and d.get("type", {}).get("desugaredQualType") else d.get("type", {}).get("qualType")), "init": init, "static": d.get("storageClass") == "static"})
         return out
     if k == "IfStmt":
         parts = [x for x in inner]
